@@ -50,7 +50,7 @@ def gGs1Case : G (Style × Spec.State) := do
     { queryId := ← G.oneOf [1, 5, 0, 77, 4294967295, 18446744073709551615, 12], cuts := [], finalFirst := ← G.bool,
       pwStyle := ← G.below 3, adminShort := ← G.bool, nameLong := ← G.bool, boolUpper := ← G.bool,
       pad := ← G.oneOf [0, 1, 1, 2] }
-  let budget ← G.oneOf [120, 300, 500, 900, 940, 960]
+  let budget ← G.oneOf [120, 300, 500, 900, 960, 1350, 1900, 1980, 2100]
   let cuts := gs1Cuts budget (allPairs y0 st)
   -- now and then: cuts at random places instead (empty parts, one big part)
   let c ← G.below 8
